@@ -195,6 +195,24 @@ def run(chk, repo, tier):
         if isinstance(n, ast.Assign) and isinstance(n.targets[0], ast.Name) and isinstance(n.value, ast.Constant) \
                 and isinstance(n.value.value, str) and n.targets[0].id in ('absorption', 'elimination', 'depot'):
             emitted.setdefault(n.targets[0].id, set()).add(n.value.value.upper())
+    # table form: `absorption = next((name for name, has in (('ZO', has_zero_order_absorption), ..) if has(model)), None)`, and
+    # conditional expressions `depot = 'DEPOT' if .. else 'NODEPOT'`
+    for n in walk_no_nested(gmf.node):
+        if isinstance(n, ast.Assign) and isinstance(n.targets[0], ast.Name) \
+                and n.targets[0].id in ('absorption', 'elimination', 'depot') and not isinstance(n.value, ast.Constant):
+            for g_ in [x for x in ast.walk(n.value) if isinstance(x, (ast.GeneratorExp, ast.ListComp))]:
+                tab = g_.generators[0].iter
+                if isinstance(tab, ast.Name):
+                    tab = pm.globals_.get(tab.id, tab)
+                if isinstance(tab, (ast.Tuple, ast.List)):
+                    for row in tab.elts:
+                        if isinstance(row, ast.Tuple) and row.elts and isinstance(row.elts[0], ast.Constant) \
+                                and isinstance(row.elts[0].value, str):
+                            emitted.setdefault(n.targets[0].id, set()).add(row.elts[0].value.upper())
+            if isinstance(n.value, ast.IfExp):
+                for br in (n.value.body, n.value.orelse):
+                    if isinstance(br, ast.Constant) and isinstance(br.value, str):
+                        emitted.setdefault(n.targets[0].id, set()).add(br.value.upper())
     for var, (cn, fld) in (('absorption', ('Absorption', 'modes')), ('elimination', ('Elimination', 'modes')),
                            ('depot', ('Transits', 'depot'))):
         em = emitted.get(var, set())
